@@ -331,6 +331,20 @@ func buildSlice(n Node) any {
 	slack := argIntDefault(n["slack"], 0) // spare backing capacity: allocated differently, same value
 	switch nStr(n, "ety") {
 	case "ptr": // []*int, a nil element is a nil pointer
+		for _, k := range kids {
+			if nStr(k, "t") != "nil" && !(nStr(k, "t") == "leaf" && nStr(k, "ty") == "int") {
+				// an element of another type does not fit []*int: pointers (and nil pointers) inside a []any
+				gen := make([]any, 0, len(kids)+slack)
+				for _, k2 := range kids {
+					if nStr(k2, "t") == "nil" {
+						gen = append(gen, (*int)(nil))
+					} else {
+						gen = append(gen, ptrTo(BuildNode(k2), 1))
+					}
+				}
+				return gen
+			}
+		}
 		out := make([]*int, 0, len(kids)+slack)
 		for _, k := range kids {
 			if nStr(k, "t") == "nil" {
@@ -363,6 +377,16 @@ func buildSlice(n Node) any {
 			return gen // an inner []*int / []any / array does not fit [][]int: the outer one becomes []any (same value)
 		}
 		return out
+	}
+	// leaves of different Go types (an int among strings, a float among ints ...) only fit a []any
+	for _, k := range kids {
+		if nStr(k, "t") != "leaf" || nStr(k, "ty") != nStr(kids[0], "ty") || (nStr(k, "ty") != "int" && nStr(k, "ty") != "str") {
+			out := make([]any, 0, len(kids)+slack)
+			for _, k2 := range kids {
+				out = append(out, BuildNode(k2))
+			}
+			return out
+		}
 	}
 	if len(kids) > 0 && nStr(kids[0], "ty") == "str" {
 		out := make([]string, 0, len(kids)+slack)
